@@ -5,7 +5,7 @@
    Validity of a chain (chain_ok): transaction ids pairwise distinct (BIP 30) and different from the
    all-zero txid; in every block the first transaction is a coinbase (its inputs are null outpoints) and no
    other transaction has a null input. *)
-From OrdV Require Import Base.Prelude Generated Index.Inscr Proofs.Inscr_tables Proofs.Inscr_proofs Proofs.Inscr_c04.
+From OrdV Require Import Base.Prelude Generated Index.Inscr Proofs.Inscr_tables Proofs.Inscr_proofs Proofs.Inscr_c04 Proofs.Inscr_c04off.
 From Coq Require Import Permutation Lia.
 
 (* After every block of every valid chain, for every configuration (sat index on/off, any first inscription
@@ -42,6 +42,17 @@ Proof.
   { unfold satpoints, held_u, seqs_of. generalize (s_utxo st). intro U. induction U as [|kv r IH]; auto.
     cbn [map concat]. rewrite map_app, IH, map_map. reflexivity. }
   rewrite Q. exact P.
+Qed.
+
+(* Every (sequence number, offset) pair stored with a real output (txid not all-zero) has an offset below the
+   output's value (ParsedUtxoEntry::total_value: the stored value, or the total size of its sat ranges when
+   the sat index is on).  No validity assumption is needed for this one. *)
+Theorem C04_offsets : forall cfg c st,
+  index_chain cfg 0 c empty_state = Ok st ->
+  forall op u, In (op, u) (s_utxo st) -> fst op <> 0 ->
+    Forall (fun so => snd so < total_value cfg u) (u_insc u).
+Proof.
+  intros cfg c st H. apply (offsets_invariant cfg c 0 empty_state st); auto. intros op u [].
 Qed.
 
 (* The number of inscriptions is the number of envelopes of the non-coinbase transactions (tl of each
@@ -88,3 +99,4 @@ Print Assumptions C04_census.
 Print Assumptions C04_exactly_once.
 Print Assumptions C04_satpoints.
 Print Assumptions C04_count.
+Print Assumptions C04_offsets.
